@@ -7,7 +7,17 @@ FAMILIES = ["herm", "gen"]
 
 def build(tier):
     report = {}
-    groups = SG.select(PROP, FAMILIES, report)
+    from props import skel
+    from vlib import z3lemma
+    from vlib.extract import ExtractionBreak
+    try:
+        groups = SG.select(PROP, FAMILIES, report)
+    except ExtractionBreak as e:
+        # the skeleton cannot be extracted any more: that part is UNDECIDED, the static obligations below still decide
+        groups = [z3lemma.StaticGroup("skeleton.extraction", ok=False, detail=str(e), obligation="extraction of the solver skeleton", undecided_on_fail=True)]
+    groups.append(skel.init_coverage(report))
+    groups.append(skel.catch_handlers(report))
+
     meta = {"level": "proof", "trusted_base": SG.TRUSTED, "assumptions": SG.ASSUMPTIONS, "extraction": report,
             "not_covered": ['bit-identity of the rerun (follows from C06 under its determinism assumption)'],
             "explanation": 'the operator stub may throw at every application; extraction propagates the flag exactly as C++ unwinding (no try/catch in these classes)'}
